@@ -66,6 +66,17 @@ DocEnumBinary(d, sh, a, b) ==
 DocEnumUnary(d, sh, a) ==
     IF sh.vs[a].k = "unit" THEN <<"unit">> ELSE <<"ok", a, UnaryMap(d, NF(sh.vs[a]))>>
 
+(***************************************************************************)
+(* Extension beyond C10 (spec growth): what the two errors PRINT.  The     *)
+(* operation is named by the operator trait's method.  Reported as an      *)
+(* extension mismatch, never as a C10 verdict.                             *)
+(***************************************************************************)
+MethodOf(d) == CASE d = "Add" -> "add" [] d = "Sub" -> "sub" [] d = "BitAnd" -> "bitand" [] d = "BitOr" -> "bitor"
+                 [] d = "BitXor" -> "bitxor" [] d = "Mul" -> "mul" [] d = "Div" -> "div" [] d = "Rem" -> "rem"
+                 [] d = "Shr" -> "shr" [] d = "Shl" -> "shl" [] d = "Not" -> "not" [] d = "Neg" -> "neg" [] OTHER -> "?"
+DocErrText(d, kind) == IF kind = "mismatch" THEN "Trying to " \o MethodOf(d) \o "() mismatched enum variants"
+                       ELSE "Cannot " \o MethodOf(d) \o "() unit variants"
+
 \* properties of the contract itself
 \* every field of the result depends on exactly the same-numbered fields, left operand first
 OrderPreserved(terms) == \A i \in 1..Len(terms) :
